@@ -52,6 +52,13 @@ class _Boom(Exception):
     pass
 
 
+class _BaseBoom(BaseException):
+    """leaves a block the way KeyboardInterrupt / SystemExit / GeneratorExit do: not an Exception"""
+
+
+_BOOMS = {"exception": _Boom, "base": _BaseBoom, "keyboard": KeyboardInterrupt}
+
+
 def _cfg():
     from pandera import config
 
@@ -96,8 +103,11 @@ def eval_nest(case):
     levels = case["levels"]
     raise_at = case.get("raise_at")
     entry = case.get("entry", "with")
+    boom = _BOOMS[case.get("boom", "exception")]
     ev.labels.append(f"depth={len(levels)}")
     ev.labels.append("exc" if raise_at is not None else "noexc")
+    if raise_at is not None:
+        ev.labels.append("boom=" + case.get("boom", "exception"))
     ev.labels.append("entry=" + entry)
     overlap = False
     for i in range(len(levels)):
@@ -141,7 +151,7 @@ def eval_nest(case):
                     check_inside(i, outer)
                     recurse(i + 1)
                     if raise_at == i:
-                        raise _Boom()
+                        raise boom()
             elif entry == "generator":
                 cm = c.config_context(**_kwargs(levels[i]))
                 cm.__enter__()
@@ -149,7 +159,7 @@ def eval_nest(case):
                     check_inside(i, outer)
                     recurse(i + 1)
                     if raise_at == i:
-                        raise _Boom()
+                        raise boom()
                 except BaseException:
                     if not cm.__exit__(*sys.exc_info()):
                         raise
@@ -160,7 +170,7 @@ def eval_nest(case):
                     check_inside(i, outer)
                     recurse(i + 1)
                     if raise_at == i:
-                        raise _Boom()
+                        raise boom()
         finally:
             after = state()
             if after != outer:
@@ -169,7 +179,7 @@ def eval_nest(case):
 
     try:
         recurse(0)
-    except _Boom:
+    except (_Boom, _BaseBoom, KeyboardInterrupt):
         if raise_at is None:
             ev.add("spurious-exception")
     except Exception as e:  # config_context must not raise anything of its own
@@ -196,6 +206,8 @@ def enum_nest2(tier):
     for o in OPTS:
         for r in (None, 0):
             yield {"levels": [o], "raise_at": r, "entry": "with"}
+        for b in ("base", "keyboard"):  # (a block can also be left by something that is not an Exception)
+            yield {"levels": [o], "raise_at": 0, "entry": "with", "boom": b}
     for o1 in OPTS:
         for o2 in OPTS:
             for r in (None, 1, 0):
@@ -205,11 +217,12 @@ def enum_nest2(tier):
 def strat_nest_deep():
     opt = st.sampled_from(OPTS)
     return st.builds(
-        lambda levels, r, entry: {"levels": levels,
-                                  "raise_at": None if r is None else r % len(levels), "entry": entry},
+        lambda levels, r, entry, boom: {"levels": levels, "raise_at": None if r is None else r % len(levels), "entry": entry,
+                                        "boom": boom},
         st.lists(opt, min_size=1, max_size=4),
         st.one_of(st.none(), st.integers(0, 3)),
         st.sampled_from(["with", "exitstack", "generator"]),
+        st.sampled_from(["exception", "exception", "base", "keyboard"]),
     )
 
 
